@@ -10,6 +10,8 @@ universal claim over sheets needs the compiler model (M4) and is discharged per 
 import Rpft.Lemmas.Bisim
 import Rpft.FlowSys
 import Rpft.RefFlow
+import Rpft.Lemmas.RefFlowClosed
+import Rpft.Gen.Tables
 set_option linter.unusedSimpArgs false
 set_option linter.unusedVariables false
 namespace Rpft.Props.C02
@@ -134,5 +136,51 @@ per sheet this is decided by `flows_equiv_of_cert` on the real output. -/
 def C02_full (compile : List RefFlow.RRow → Option Flow.Flow) : Prop :=
   ∀ rows f r, compile rows = some f → RefFlow.refFlow rows = .ok r →
     ∀ env n, trace ⟨false, true⟩ r env n = trace ⟨false, true⟩ f env n
+
+/-- T1: the tests without argument of the reference interpretation are the source's
+`RouterCase.NO_ARGS_TESTS` (re-extracted on every run). -/
+theorem tables_agree : Gen.routerNoArgsTests = RefFlow.noArgsTests := by decide
+
+/-! ### the reference interpretation is itself well formed, for every sheet -/
+
+/-- **The meaning of the rows is always a closed flow**: for EVERY list of rows (any length, any
+edges, any `go_to`s, cycles included) for which the reference interpretation exists (every `from`
+and every `go_to` destination names an earlier node-producing row), the reference flow satisfies
+the closure statement of C01 — unique node identifiers, every exit leads nowhere or to a node of
+the flow, every router closed, all identifiers distinct.  So a path of the reference semantics
+never ends because of a structural fault of the reference itself: a difference found by the
+certificate checker is a difference of the compiled flow. -/
+theorem reference_flow_closed (rows : List RefFlow.RRow) (f : Flow.Flow)
+    (h : RefFlow.refFlow rows = .ok f) : Flow.Closed f :=
+  RefFlow.refFlow_closed rows f h
+
+/-- …and every target the first pass records is a node-producing row of the sheet. -/
+theorem reference_targets_are_rows (rows : List RefFlow.RRow) (out : List RefFlow.OutEdge)
+    (h : RefFlow.pass1 rows = .ok out) : ∀ e ∈ out, RefFlow.TgtOk rows e.tgt :=
+  RefFlow.pass1_targets rows out h
+
+/-- non-vacuity: a sheet with an action row, a wait row with two cases and a timeout, a `go_to`
+back to the first row (a cycle) and a `hard_exit` has a reference flow -/
+def exSheet : List RefFlow.RRow :=
+  let c0 : RefFlow.Cond := ⟨[], [], [], []⟩
+  [ { rowId := "1".toList, kind := .action, edges := [⟨"start".toList, c0⟩], act := some "hi".toList,
+      operand := [], saveName := [], timeout := 0, dests := [] },
+    { rowId := "2".toList, kind := .wait, edges := [⟨[], c0⟩], act := none,
+      operand := "@input.text".toList, saveName := "r".toList, timeout := 60, dests := [] },
+    { rowId := [], kind := .goTo, edges := [⟨"2".toList, ⟨"a".toList, [], [], []⟩⟩], act := none,
+      operand := [], saveName := [], timeout := 0, dests := ["1".toList] },
+    { rowId := [], kind := .hardExit, edges := [⟨"2".toList, ⟨"No Response".toList, [], [], []⟩⟩], act := none,
+      operand := [], saveName := [], timeout := 0, dests := [] } ]
+
+example : ((RefFlow.refFlow exSheet).toOption.map (·.nodes.length)) = some 2 := by decide +kernel
+
+def badSheet : List RefFlow.RRow :=
+  [ { rowId := [], kind := .goTo, edges := [⟨"start".toList, ⟨[], [], [], []⟩⟩], act := none,
+      operand := [], saveName := [], timeout := 0, dests := ["nowhere".toList] } ]
+
+/-- the hypothesis is needed and exact: a `go_to` naming a row that does not exist has no
+reference interpretation (the real compiler rejects such a sheet as well) -/
+theorem reference_needs_known_rows : (RefFlow.refFlow badSheet).toOption = none := by
+  decide +kernel
 
 end Rpft.Props.C02
